@@ -493,6 +493,7 @@ def _run_one(spec):
 
 
 def run_specs(specs: list[dict], workers: int = 14, runner=_run_one) -> list[dict]:
+    workers = max(2, min(workers, int(os.environ.get("VERIF_NCPU", "0") or 0) or workers))
     ctx = mp.get_context("fork")
     with ctx.Pool(workers) as pool:
         return pool.map(runner, specs, chunksize=max(1, len(specs) // (workers * 6)))
